@@ -1427,16 +1427,23 @@ class Authenticated(BaseClientHandler):
                 await self.send_pending_notifications()
             else:
                 raise No("There are pending untagged responses")
+        else:
+            await self.send_pending_notifications()
 
         async with cmd.ready_and_okay(self.mbox):
             # While this command waited for its turn another client's
             # EXPUNGE may have run: its EXPUNGEs are now pending for us and
             # our sequence numbers are stale.
             #
-            if self.pending_expunges():
-                if not cmd.uid_command:
-                    raise No("There are pending untagged responses")
-                await self.send_pending_notifications()
+            if self.pending_expunges() and not cmd.uid_command:
+                raise No("There are pending untagged responses")
+
+            # The numbers in our answer are taken from the mailbox as it is
+            # now. An EXISTS that is still queued for this client (behind
+            # some other notification) has to reach it first or we would
+            # name messages it has not been told about.
+            #
+            await self.send_pending_notifications()
             try:
                 results = await self.mbox.search(
                     cmd.search_key, cmd.uid_command, cmd.timeout_cm
